@@ -414,8 +414,10 @@ impl<'a> Parser<'a> {
 
     fn get_sheet_index_by_name(&self, name: &str) -> Option<u32> {
         let worksheets = &self.worksheets;
+        // Sheet names are case-insensitive (see Model::get_sheet_index_by_name)
+        let name_upper = name.to_uppercase();
         for (i, sheet) in worksheets.iter().enumerate() {
-            if sheet == name {
+            if sheet.to_uppercase() == name_upper {
                 return Some(i as u32);
             }
         }
